@@ -93,6 +93,11 @@ func tyOf(e sx.Sexp) *ty {
 			panic(fmt.Errorf("bad type %s", e))
 		}
 		return &ty{tag: e.Tag(), kids: []*ty{tyOf(a[0])}}
+	case "arrn":
+		if len(a) != 3 {
+			panic(fmt.Errorf("bad type %s", e))
+		}
+		return &ty{tag: "arr", kids: []*ty{tyOf(a[0])}, lo: bound(a[1]), hi: bound(a[2])}
 	case "var":
 		t := &ty{tag: "var"}
 		for _, k := range a {
@@ -146,6 +151,9 @@ func (t *ty) src(env map[string]*ty, depth int) string {
 		}
 		return "Enum[" + strings.Join(qs, ",") + "]"
 	case "arr":
+		if t.lo != nil {
+			return "Array[" + t.kids[0].src(env, depth) + "," + bstr(t.lo) + "," + bstr(t.hi) + "]"
+		}
 		return "Array[" + t.kids[0].src(env, depth) + "]"
 	case "opt":
 		return "Optional[" + t.kids[0].src(env, depth) + "]"
@@ -456,7 +464,7 @@ func execCall(c px.Context, args []sx.Sexp) core.Result {
 	var vals []px.Value
 	for _, e := range args[2].Args() {
 		switch e.Tag() {
-		case "i", "s", "b", "u", "a":
+		case "i", "s", "b", "u", "a", "d":
 		default:
 			return core.Result{Out: "bad-op", Pred: "FAIL harness-bad-op value"}
 		}
@@ -737,6 +745,91 @@ func execNew(c px.Context, args []sx.Sexp) core.Result {
 	return res
 }
 
+// execNewM: `newm <recv> (args v*)` with recv ::= ty | (init ty) | (init) — the modelled constructors (Integer, Boolean,
+// Array) and the receivers without constructor, on the alphabet values; the result value itself is compared
+func execNewM(c px.Context, args []sx.Sexp) core.Result {
+	if len(args) != 2 || args[1].Tag() != "args" {
+		return core.Result{Out: "bad-op", Pred: "FAIL harness-bad-op newm"}
+	}
+	var src string
+	var contained string
+	if args[0].Tag() == "init" {
+		ia := args[0].Args()
+		switch len(ia) {
+		case 0:
+			src = "Init"
+		case 1:
+			contained = tyOf(ia[0]).src(nil, 0)
+			src = "Init[" + contained + "]"
+		default:
+			return core.Result{Out: "bad-op", Pred: "FAIL harness-bad-op newm receiver"}
+		}
+	} else {
+		src = tyOf(args[0]).src(nil, 0)
+		contained = src
+	}
+	var vals []px.Value
+	for _, e := range args[1].Args() {
+		switch e.Tag() {
+		case "i", "s", "b", "u", "a", "d":
+		default:
+			return core.Result{Out: "bad-op", Pred: "FAIL harness-bad-op value"}
+		}
+		vals = append(vals, valOf(c, e))
+	}
+	var typ, expected px.Type
+	if o := safely(func() {
+		typ = c.ParseType(src)
+		if contained != "" {
+			expected = c.ParseType(contained)
+		}
+	}); o != "" {
+		return core.Result{Out: "bad-op", Pred: "FAIL harness-bad-op receiver does not parse: " + src}
+	}
+	var r px.Value
+	out := safely(func() { r = px.New(c, typ, vals...) })
+	res := core.Result{Pred: "ok", NonTrivial: len(vals) > 0, Tags: []string{"newm.recv=" + typ.Name()}}
+	switch {
+	case out == "":
+		res.Out = "value " + alphaStr(r)
+		in := false
+		if o2 := safely(func() { in = expected != nil && px.IsInstance(expected, r) }); o2 != "" || !in {
+			res.Pred = fmt.Sprintf("FAIL new-outside-type %s.new returned %s which is not an instance of %s", src, short(r), contained)
+		}
+		res.Tags = append(res.Tags, "newm.out=value")
+	case strings.HasPrefix(out, "reported "):
+		res.Out = out
+		res.Tags = append(res.Tags, "newm.out="+strings.Replace(out, " ", ":", -1))
+	default:
+		res.Out = out
+		res.Pred = fmt.Sprintf("FAIL new-fault-%s %s.new ended in %s instead of a value or a reported error", typ.Name(), src, out)
+	}
+	return res
+}
+
+// alphaStr prints a value of the alphabet in op syntax; anything else as (? <type name>)
+func alphaStr(v px.Value) string {
+	switch v := v.(type) {
+	case px.Integer:
+		return "(i " + strconv.FormatInt(v.Int(), 10) + ")"
+	case px.StringValue:
+		return "(s " + sx.Str(v.String()).String() + ")"
+	case px.Boolean:
+		return "(b " + sx.B(v.Bool()) + ")"
+	case *types.UndefValue:
+		return "(u)"
+	case *types.DefaultValue:
+		return "(d)"
+	case *types.Array:
+		var sb strings.Builder
+		sb.WriteString("(a")
+		v.Each(func(e px.Value) { sb.WriteString(" " + alphaStr(e)) })
+		sb.WriteString(")")
+		return sb.String()
+	}
+	return "(? " + v.PType().Name() + ")"
+}
+
 func short(v px.Value) string {
 	s := ""
 	if safely(func() { s = v.String() }) != "" {
@@ -763,6 +856,8 @@ func exec(c px.Context, op string, args []sx.Sexp) (res core.Result) {
 		return execCall(c, args)
 	case "new":
 		return execNew(c, args)
+	case "newm":
+		return execNewM(c, args)
 	}
 	return core.Result{Out: "bad-op", Pred: "FAIL harness-bad-op " + op}
 }
